@@ -113,7 +113,8 @@ def random_scn(rng, k, big=False, cached=None):
                     "src": rng.choice(["mem", "mem", "file", "range"]),
                     "origin": rng.choice([1, 777, 1000, 4097, 123456])})
     return {"kind": "content", "id": "s%d" % k, "comp": comp, "level": level,
-            "creator": rng.choice(["pack", "pack", "basic"]), "cached": cached, "ops": ops, "origin": "random"}
+            "creator": rng.choice(["pack", "pack", "basic"]), "concat": rng.choice(["one", "two", "none"]), "cached": cached,
+            "ops": ops, "origin": "random"}
 
 
 def long_scns(tier):
@@ -231,6 +232,12 @@ def annotate(s, run, want_verbatim):
                          dict(desc, read=rp)))
     dec = jbkdec.decode_file(fin["file"], check_hash=False)
     pk = find_content_pack(dec)
+    if pk is None and s.get("creator") == "basic":
+        # TwoFiles / NoConcat: the content pack lives in its own file next to the entry point
+        alt = os.path.splitext(fin["file"])[0] + ".jbkc"
+        if os.path.exists(alt):
+            dec = jbkdec.decode_file(alt, check_hash=False)
+            pk = find_content_pack(dec)
     bad = [v for v in dec["violations"] if v["rule"] != "pack-size-relation"]
     if pk is None or "infos" not in pk or any(not c.get("ok") for c in pk.get("clusters", [])) or \
             any(v["rule"].startswith("info-") for v in bad):
